@@ -37,13 +37,18 @@ type c20inner struct {
 	urls      []string
 	at        []time.Duration
 	failErr   func(call int) error
+	firstLat  time.Duration // latency of the first attempt when it differs from the others (0: the same)
 }
 
 func (g *c20inner) Get(url string) (map[string][]string, []byte, error) {
 	g.calls++
 	g.urls = append(g.urls, url)
 	g.at = append(g.at, vsched.Elapsed())
-	vsched.Advance(g.latency)
+	if g.calls == 1 && g.firstLat != 0 {
+		vsched.Advance(g.firstLat)
+	} else {
+		vsched.Advance(g.latency)
+	}
 	if g.calls > 400 {
 		panic(errLivelock)
 	}
@@ -145,7 +150,18 @@ func runC20(r *mc.Run) {
 			if si > 0 && ek.mk == nil && !(gr.def || gi%7 == 3) {
 				continue // the other response shapes on the default configuration and on every 7th grid point
 			}
-			for _, lat := range []time.Duration{0, time.Second} {
+			for li, lat := range []time.Duration{0, time.Second, 0, 0} {
+				// latency kinds 2 / 3: only the FIRST attempt is slow — it outlasts the timeout by a second / ends a
+				// second before it; every later attempt answers at once
+				var firstLat time.Duration
+				if li == 2 {
+					firstLat = gr.timeout + time.Second
+				} else if li == 3 {
+					firstLat = gr.timeout - time.Second
+				}
+				if li >= 2 && (firstLat <= 0 || si > 0 || gr.maxDelay == 0) {
+					continue // (with MaxRetryDelay 0 the later, instant attempts spin without virtual time passing: the contradictory corner)
+				}
 				// k = -1 is "fail forever"; it tells how many attempts the timeout allows
 				maxK := 0
 				for k := -1; k <= maxK; k++ {
@@ -154,6 +170,9 @@ func runC20(r *mc.Run) {
 						continue
 					}
 					name := fmt.Sprintf("retry/timeout=%v,maxdelay=%v,default=%v,latency=%v,k=%d", gr.timeout, gr.maxDelay, gr.def, lat, k)
+					if firstLat != 0 {
+						name = fmt.Sprintf("retry/timeout=%v,maxdelay=%v,default=%v,first-attempt-latency=%v,k=%d", gr.timeout, gr.maxDelay, gr.def, firstLat, k)
+					}
 					if si > 0 {
 						name += ",response=" + sh.name
 					}
@@ -169,7 +188,7 @@ func runC20(r *mc.Run) {
 						wantHdr, wantBody = sh.header, sh.body
 						inner := &c20inner{failFirst: k, latency: lat,
 							header: cloneHdr(sh.header), body: cloneBytes(sh.body),
-							failHdr: map[string][]string{"X-Stale": {"stale"}}, failBody: []byte("stale body"), failErr: ek.mk}
+							failHdr: map[string][]string{"X-Stale": {"stale"}}, failBody: []byte("stale body"), failErr: ek.mk, firstLat: firstLat}
 						var getter *trust.RetryHTTPSGetter
 						if gr.def {
 							dg, ok := trust.DefaultHTTPSGetter().(*trust.RetryHTTPSGetter)
@@ -200,7 +219,11 @@ func runC20(r *mc.Run) {
 						if !r.Want(id) {
 							return
 						}
-						out := c20Judge(r, id, gr.timeout, gr.maxDelay, lat, k, inner, hdr, body, err, pan)
+						jl := lat
+						if firstLat > jl {
+							jl = firstLat
+						}
+						out := c20Judge(r, id, gr.timeout, gr.maxDelay, jl, k, inner, hdr, body, err, pan)
 						r.Eval(id, k != 0, out)
 					})
 					_ = st
@@ -297,6 +320,14 @@ func c20Judge(r *mc.Run, id string, timeout, maxDelay, lat time.Duration, k int,
 		if w.Woke != "deadline" && w.Waited == 0 && maxDelay != 0 {
 			r.Violate(sigBase+"busy-loop", id, fmt.Sprintf("wait %d before a retry lasted 0 although MaxRetryDelay is %v (busy loop)", i, maxDelay), detail)
 			out = "busy"
+		}
+	}
+	// the timeout runs from the call of Get: an attempt in flight when it elapses is waited for, but no attempt STARTS later
+	for i, at := range in.at {
+		if i > 0 && maxDelay != 0 && at > timeout {
+			r.Violate(sigBase+"attempt-after-timeout", id, fmt.Sprintf("attempt %d starts %v after Get was called, later than the timeout %v", i+1, at, timeout), detail)
+			out = "late-attempt"
+			break
 		}
 	}
 	failed := in.calls
